@@ -7,7 +7,7 @@
    A scenario = protocol x method shape x request messages (payload, oracle "unmarshals") x
    HTTP rule with / without body x handler script (Recv / Send / SendHeader / cancel, final status)
    x interceptor behaviour x options on / off. All theorems quantify over every scenario. *)
-From Larking Require Import Base.GoSem Spec.EventsSpec Model.Events Proofs.EventsProofs.
+From Larking Require Import Base.GoSem Spec.EventsSpec Model.Events Proofs.EventsProofs Proofs.EventsReplyProofs.
 
 (* The fixed code never panics in the modelled paths (the only Panic left in `serve false` is
    SendMsg(nil), reached when an interceptor returns (nil, nil) for a unary method). *)
@@ -21,9 +21,12 @@ Print Assumptions C18_no_crash.
    - a stream handler always reaches the interceptor; the client's status is the code it returned;
    - a unary handler reaches it iff the request message could be received (as in grpc-go, the
      generated code decodes before it calls the interceptor); a non-OK code it returns is the
-     client's status and no message is sent; OK means the client gets exactly the reply (on gRPC
-     provided the call was not cancelled meanwhile);
-   - never more than one call. *)
+     client's status and no message is sent; OK means the client gets exactly the message the
+     interceptor returned -- reply_of: its own message in the modes IReplace m / IAnswer m, the
+     handler's reply otherwise (on gRPC provided the handler did not cancel the call meanwhile; an
+     interceptor that answers without calling the handler needs no such condition);
+   - never more than one call.
+   The statement covers all five interceptor modes. *)
 Theorem C18_once : forall sc r,
   serve false sc = Ok r -> s_routed sc = true -> s_icpt sc = true ->
   (r_iret r <> None -> calls_ok (is_unary (s_hs sc)) (s_name sc) (s_cs sc) (s_ss sc) (r_calls r) = true) /\
@@ -33,9 +36,66 @@ Theorem C18_once : forall sc r,
      (first_ok sc = false -> r_iret r = None /\ r_replies r = []) /\
      (first_ok sc = true -> exists k, r_iret r = Some k /\
         (k <> 0 -> r_status r = Some k /\ r_replies r = []) /\
-        (k = 0 -> s_proto sc = PHttp \/ no_cancel pre = true -> r_status r = Some 0 /\ r_replies r = [reply]))).
+        (k = 0 -> s_proto sc = PHttp \/ no_cancel pre = true \/ (exists m, s_imode sc = IAnswer m) ->
+         r_status r = Some 0 /\ r_replies r = [reply_of (s_imode sc) reply]))).
 Proof. exact once. Qed.
 Print Assumptions C18_once.
+
+(* What the interceptor returns is what the client gets, for an interceptor that returns a message
+   of its own with a nil error: on every protocol (s_proto is not constrained) the client receives
+   exactly [m] with status OK, and the interceptor was called exactly once, as a unary interceptor
+   with the method's full name.
+   - IAnswer m (the handler is not called): no further hypothesis;
+   - IReplace m (the handler is called, its reply replaced): the handler must succeed -- said through
+     the same RPC with a pass-through interceptor, whose interceptor layer returns nil -- and, as for
+     the handler's own reply in C18_once, on gRPC it must not have cancelled the call (SendMsg then
+     answers Canceled whatever the message). *)
+Theorem C18_interceptor_reply_is_delivered : forall sc r pre reply final m,
+  serve false sc = Ok r -> s_routed sc = true -> s_icpt sc = true ->
+  s_hs sc = HUnary pre reply final -> first_ok sc = true ->
+  (s_imode sc = IAnswer m \/
+   (s_imode sc = IReplace m /\
+    (exists r0, serve false (set_imode IPass sc) = Ok r0 /\ r_iret r0 = Some 0) /\
+    (s_proto sc = PHttp \/ no_cancel pre = true))) ->
+  r_replies r = [m] /\ r_status r = Some 0 /\ r_iret r = Some 0 /\
+  r_calls r = [IUnary (s_name sc)] /\
+  calls_ok true (s_name sc) (s_cs sc) (s_ss sc) (r_calls r) = true.
+Proof. exact interceptor_reply_is_delivered. Qed.
+Print Assumptions C18_interceptor_reply_is_delivered.
+
+(* the same for a handler given syntactically: it neither cancels nor sends the header (Recv / Send
+   do nothing in a unary handler) and ends with OK *)
+Theorem C18_replace_delivered_plain : forall sc r pre reply final m,
+  serve false sc = Ok r -> s_routed sc = true -> s_icpt sc = true -> s_imode sc = IReplace m ->
+  s_hs sc = HUnary pre reply final -> first_ok sc = true ->
+  filter unary_act pre = [] -> final = 0 ->
+  r_replies r = [m] /\ r_status r = Some 0 /\ r_iret r = Some 0 /\ r_calls r = [IUnary (s_name sc)].
+Proof. exact replace_delivered_plain. Qed.
+Print Assumptions C18_replace_delivered_plain.
+
+(* IReplace m returns the handler's error unchanged: against the same RPC with a pass-through
+   interceptor the interceptor's return code, the client's status, the handler's view and the
+   interceptor calls are the same, and m stands wherever the handler's reply would have been sent *)
+Theorem C18_replace_follows_handler : forall sc m pre reply final,
+  eff_mode sc = IReplace m -> s_hs sc = HUnary pre reply final ->
+  exists r r0, serve false sc = Ok r /\ serve false (set_imode IPass sc) = Ok r0 /\
+    r_iret r = r_iret r0 /\ r_status r = r_status r0 /\ r_herr r = r_herr r0 /\
+    r_hlog r = r_hlog r0 /\ r_dlv r = r_dlv r0 /\ r_calls r = r_calls r0 /\
+    r_replies r = map (fun _ => m) (r_replies r0) /\
+    (r_replies r0 = [] \/ r_replies r0 = [reply]).
+Proof. exact replace_follows_handler. Qed.
+Print Assumptions C18_replace_follows_handler.
+
+(* IAnswer m: the handler is not called. Its script plays no part in the result -- any other unary
+   script gives the same calls, events, replies, status and handler-side log -- and the log holds
+   the decode's RecvMsg and nothing else. *)
+Theorem C18_answer_skips_handler : forall sc m pre reply final,
+  s_icpt sc = true -> s_imode sc = IAnswer m -> s_hs sc = HUnary pre reply final ->
+  (forall pre' reply' final', serve false (set_hs (HUnary pre' reply' final') sc) = serve false sc) /\
+  (forall r, serve false sc = Ok r -> s_routed sc = true -> first_ok sc = true ->
+     r_hlog r = [ROk] /\ r_iret r = Some 0 /\ r_status r = Some 0 /\ r_replies r = [m]).
+Proof. exact answer_skips_handler. Qed.
+Print Assumptions C18_answer_skips_handler.
 
 (* The stats trace: accepted by Tag.InHeader.Begin.InPayload*.(OutHeader.(InPayload|OutPayload)* )?.OutTrailer?.End,
    Tag / InHeader carry the method name and Begin its flags, exactly one InPayload (Length n,
@@ -112,6 +172,44 @@ Definition ex_override : scenario :=
 Example ex_override_runs :
   exists r, serve false ex_override = Ok r /\ r_iret r = Some 7 /\ client_view r = ([m7], Some 7) /\
     end_codes (r_events r) = [7].
+Proof. eexists. split; [vm_compute; reflexivity|]. repeat split. Qed.
+
+(* interceptors that answer with their own message m7 although the handler would reply m3 *)
+Definition ex_replace (p : protocol) : scenario :=
+  mkScenario p false false nm true true [(m3, true)] (HUnary [AHeader] m3 0) (IReplace m7) true true.
+Example ex_replace_http :
+  exists r, serve false (ex_replace PHttp) = Ok r /\
+    r_calls r = [IUnary nm] /\ r_iret r = Some 0 /\ client_view r = ([m7], Some 0) /\ r_hlog r = [ROk; ROk] /\
+    r_events r = [ETag nm; EInHeader nm; EBegin false false; EInPayload 3 8; EOutHeader; EOutPayload 7 12; EOutTrailer; EEnd 0].
+Proof. eexists. split; [vm_compute; reflexivity|]. repeat split. Qed.
+Example ex_replace_grpc :
+  exists r, serve false (ex_replace PGrpc) = Ok r /\
+    r_calls r = [IUnary nm] /\ r_iret r = Some 0 /\ client_view r = ([m7], Some 0) /\ r_hlog r = [ROk; ROk] /\
+    r_events r = [ETag nm; EInHeader nm; EBegin false false; EInPayload 3 8; EOutHeader; EOutPayload 7 12; EOutTrailer; EEnd 0].
+Proof. eexists. split; [vm_compute; reflexivity|]. repeat split. Qed.
+(* the handler fails: its error passes through, nothing is sent *)
+Example ex_replace_handler_fails :
+  exists r, serve false (mkScenario PGrpc false false nm true true [(m3, true)] (HUnary [] m3 9) (IReplace m7) true true) = Ok r /\
+    r_calls r = [IUnary nm] /\ r_iret r = Some 9 /\ client_view r = ([], Some 9).
+Proof. eexists. split; [vm_compute; reflexivity|]. repeat split. Qed.
+
+(* the handler would send the header, cancel and fail: none of it happens *)
+Definition ex_answer (p : protocol) : scenario :=
+  mkScenario p false false nm true true [(m3, true)] (HUnary [AHeader; ACancel] m3 9) (IAnswer m7) true true.
+Example ex_answer_http :
+  exists r, serve false (ex_answer PHttp) = Ok r /\
+    r_calls r = [IUnary nm] /\ r_iret r = Some 0 /\ client_view r = ([m7], Some 0) /\ r_hlog r = [ROk] /\
+    r_events r = [ETag nm; EInHeader nm; EBegin false false; EInPayload 3 8; EOutHeader; EOutPayload 7 12; EOutTrailer; EEnd 0].
+Proof. eexists. split; [vm_compute; reflexivity|]. repeat split. Qed.
+Example ex_answer_grpc :
+  exists r, serve false (ex_answer PGrpc) = Ok r /\
+    r_calls r = [IUnary nm] /\ r_iret r = Some 0 /\ client_view r = ([m7], Some 0) /\ r_hlog r = [ROk] /\
+    r_events r = [ETag nm; EInHeader nm; EBegin false false; EInPayload 3 8; EOutHeader; EOutPayload 7 12; EOutTrailer; EEnd 0].
+Proof. eexists. split; [vm_compute; reflexivity|]. repeat split. Qed.
+(* on a stream method the two modes pass through *)
+Example ex_answer_stream :
+  exists r, serve false (mkScenario PGrpc false true nm true true [(m3, true)] (HStream [ARecv; ASend m3] 0) (IAnswer m7) true true) = Ok r /\
+    r_calls r = [IStream nm false true] /\ client_view r = ([m3], Some 0).
 Proof. eexists. split; [vm_compute; reflexivity|]. repeat split. Qed.
 
 (* ---- finding F6: the pre-fix gRPC stats path, kept as `serve true` ---- *)
